@@ -217,6 +217,9 @@ class RecipeSourceBlock(NamedTuple):
         Requires the complete original markdown source listing (as used during
         parsing) as an argument.
         """
+        # NB: Marko normalises "\r\n" line endings to "\n" before parsing so
+        # 'pos' is an offset into the normalised source.
+        markdown_source = markdown_source.replace("\r\n", "\n")
         newlines = "\n" * (offset_to_line_and_column(markdown_source, self.pos)[0] - 1)
 
         # NB: the 'pos' is the offset of the fence, not the first line of
